@@ -167,6 +167,14 @@ def _files(case, seq, s, dbn, out):
             bf = call("BpSeq.from_file:" + name, BpSeq.from_file, out, p)
             if bf is not None and not (bf == b0 and str(bf) == str(b0)):
                 out.append(viol("from_file:BpSeq:" + name, "BpSeq.from_file(str(b)) != b", str(bf), str(b0)))
+        # the same pairing under residue symbols other than ACGU ('?' is what the library itself writes for a missing residue, '-' and '.' occur in other tools' files)
+        sym = "?X-n.N"
+        lines = ["%d %s %d" % (e.index_, sym[(e.index_ - 1) % len(sym)], e.pair) for e in b0.entries]
+        with open(p, "w") as f:
+            f.write("\n".join(lines) + "\n")
+        bf = call("BpSeq.from_file:symbols", BpSeq.from_file, out, p)
+        if bf is not None and [(e.index_, e.sequence, e.pair) for e in bf.entries] != [(e.index_, sym[(e.index_ - 1) % len(sym)], e.pair) for e in b0.entries]:
+            out.append(viol("from_file:BpSeq:symbols", "BpSeq.from_file drops or changes entries whose residue symbol is not a letter", str(bf), "\n".join(lines)))
 
 
 def _run_string(case):
